@@ -115,8 +115,10 @@ def _post_refine(self, OLD):
                   f"(found {new[2 * i]!r})", None)
         ins = new[1::2]
         mids = np.array([float(m) for m in mids])
-        if not np.array_equal(ins, mids):
-            i = int(np.where(ins != mids)[0][0])
+        # (the same point up to the rounding of its formula: 1e-9 of the gap width)
+        off = np.abs(ins - mids) > 1e-9 * np.diff(old)
+        if np.any(off) or not np.all(np.isfinite(ins)):
+            i = int(np.where(off | ~np.isfinite(ins))[0][0])
             _viol("refine-inserted-not-cell-boundary", f"{name}.refine(): state inserted in gap {i} of axis {k} is {ins[i]!r} "
                   f"but the grid's own cell boundary was {mids[i]!r}", None)
         if not (np.all(ins > old[:-1]) and np.all(ins < old[1:])):
@@ -139,13 +141,22 @@ def install_grid_contracts():
         pass
 
     CTMCGrid.__init__ = icontract.ensure(_post_init, error=GridContractError)(CTMCGrid.__init__)
-    refine = icontract.ensure(_post_refine, error=GridContractError)(CTMCGrid.refine)
-    refine = icontract.snapshot(_snap_axes, name="axes")(refine)
-    refine = icontract.snapshot(_snap_mid, name="mid")(refine)
-    refine = icontract.snapshot(_snap_h, name="h")(refine)
-    refine = icontract.snapshot(_snap_origin, name="origin")(refine)
-    refine = icontract.snapshot(_snap_trunc, name="trunc")(refine)
-    CTMCGrid.refine = refine
+    def subclasses(cls):
+        for sub in cls.__subclasses__():
+            yield sub
+            yield from subclasses(sub)
+
+    # the post-condition goes on every refine() the class tree defines (a subclass with its own refine would otherwise never be observed)
+    for cls in [CTMCGrid] + list(subclasses(CTMCGrid)):
+        if "refine" not in cls.__dict__:
+            continue
+        refine = icontract.ensure(_post_refine, error=GridContractError)(cls.__dict__["refine"])
+        refine = icontract.snapshot(_snap_axes, name="axes")(refine)
+        refine = icontract.snapshot(_snap_mid, name="mid")(refine)
+        refine = icontract.snapshot(_snap_h, name="h")(refine)
+        refine = icontract.snapshot(_snap_origin, name="origin")(refine)
+        refine = icontract.snapshot(_snap_trunc, name="trunc")(refine)
+        cls.refine = refine
     _installed = True
 
 
